@@ -151,6 +151,32 @@ func genC08(faulty, concurrent bool) func(rng *Rng, sc *Scenario) {
 			}
 			sc.Clients = append(sc.Clients, cl)
 		}
+		if rng.Chance(1, 5) {
+			// a panic hook: the commit must still be single and carry what the hook set
+			sc.Options.OnPanic = "p0"
+			switch rng.Intn(3) {
+			case 0:
+				sc.Handlers["p0"] = []Action{{Op: "status", N: 503}, {Op: "write", S: "recovered"}}
+			case 1:
+				sc.Handlers["p0"] = []Action{{Op: "status", N: 500}}
+			default:
+				sc.Handlers["p0"] = []Action{{Op: "httperr", N: 500, S: "internal"}}
+			}
+			rq := &sc.Clients[0].Reqs[0]
+			h := ""
+			for _, op := range sc.Program {
+				if op.Op == "route" && op.Path == rq.Path {
+					h = op.H
+				}
+			}
+			if h != "" {
+				base := sc.Handlers[h]
+				pos := rng.Intn(len(base) + 1)
+				s := append([]Action{}, base[:pos]...)
+				s = append(s, Action{Op: "panic", S: "str"})
+				rq.Over = map[string][]Action{h: append(s, base[pos:]...)}
+			}
+		}
 		sc.Pool = GenPool(rng)
 		sc.Sites = GenSites(rng)
 		if concurrent {
@@ -170,9 +196,17 @@ func checkC08(sc *Scenario) *CheckOut {
 		out.Viol = append(out.Viol, Violation{"C08", "no-progress", "run exceeded its step bound", ""})
 		return out
 	}
+	if v := poolViolation("C08", res); v != nil {
+		out.Viol = append(out.Viol, *v)
+		return out
+	}
 	for _, rec := range res.All() {
 		rq := &sc.Clients[rec.Task].Reqs[rec.Idx]
-		if v := modelC08("C08", rec, rq); v != nil {
+		if len(rec.PanicAt) > 0 {
+			out.Faults["handler-panic"]++
+		}
+		// with a panic hook installed the commit model is continued through the hook's operations
+		if v := modelCommit("C08", rec, rq, sc.Options.OnPanic != "", false); v != nil {
 			out.Viol = append(out.Viol, *v)
 			break
 		}
